@@ -454,7 +454,7 @@ def gen_aside(rng, nfiles=None, weird=True, full_catalog=False):
         raw[0] = 0
         deleted.append((slots.pop(), bytes(raw)))
     return {"files": files, "deleted": deleted, "reserved": reserved, "filler": rng.choice([0xE5, 0, 0xFF, 0x55]),
-            "tableTail": rng.choice([0, 0xFF]), "recPad": rng.choice([0, 0xFF, 0x20]), "byte0": rng.choice([0, 0, 0xFF])}
+            "tableTail": rng.choice([0, 0xFF, 7]), "recPad": rng.choice([0, 0xFF, 0x20]), "byte0": rng.choice([0, 0, 0xFF])}
 
 
 def render_image(ctx, blobs, asides, fl, check_twin=True, res=None, stream=None):
